@@ -54,3 +54,13 @@ Theorem C01_hull_of_vertices_in_region : forall g sites c l,
   forall s, In s sites -> closer g s (hcomb l).
 Proof. exact hull_in_region. Qed.
 Print Assumptions C01_hull_of_vertices_in_region.
+
+(* ---- one dimension, completely (the closed form the C08 check compares the 1D implementation with): inside [lo, hi]
+   the nearest-generator region of g is exactly the interval between the largest midpoint on its left and the smallest
+   midpoint on its right (doubled coordinates) *)
+From MV Require Import Proofs.OneD.
+Theorem C01_voronoi_1d : forall lo hi g sites x, ~ In g sites ->
+  ((lo <= x <= hi /\ forall s, In s sites -> (x - g) * (x - g) <= (x - s) * (x - s)) <->
+   left2 lo g sites <= 2 * x <= right2 hi g sites).
+Proof. exact voronoi_1d. Qed.
+Print Assumptions C01_voronoi_1d.
